@@ -6,6 +6,7 @@
 package clusterkit
 
 import (
+	"bytes"
 	"context"
 	"errors"
 	"fmt"
@@ -323,6 +324,43 @@ func (g failingGroup) IteratorCost(measurement string, opt query.IteratorOptions
 }
 func (g failingGroup) FieldDimensions(measurements []string) (map[string]influxql.DataType, map[string]struct{}, error) {
 	return nil, nil, errors.New("injected: shard engine closed")
+}
+
+// AddNode joins a new, empty data node (it owns no existing shard).
+func (c *Cluster) AddNode() (*Node, error) {
+	c.mu.Lock()
+	id := uint64(len(c.Nodes) + 1)
+	err := c.Data.CreateDataNode(fmt.Sprintf("node%d:8086", id), fmt.Sprintf("node%d:8088", id))
+	c.mu.Unlock()
+	if err != nil {
+		return nil, err
+	}
+	n, err := c.newNode(id)
+	if err != nil {
+		return nil, err
+	}
+	c.Nodes = append(c.Nodes, n)
+	return n, nil
+}
+
+// CopyShard copies a shard from one node to another the way the cluster does:
+// backup stream -> CreateShard + RestoreShard on the destination, then the
+// destination is added to the shard's owners in the metadata.
+func (c *Cluster) CopyShard(shardID uint64, from, to int) error {
+	var buf bytes.Buffer
+	if err := c.Nodes[from].Store.BackupShard(shardID, time.Time{}, &buf); err != nil {
+		return err
+	}
+	if err := c.Nodes[to].Store.CreateShard(DB, RP, shardID, true); err != nil {
+		return err
+	}
+	if err := c.Nodes[to].Store.RestoreShard(shardID, &buf); err != nil {
+		return err
+	}
+	c.mu.Lock()
+	c.Data.CopyShardOwner(shardID, c.Nodes[to].ID)
+	c.mu.Unlock()
+	return nil
 }
 
 // Write writes line protocol through the PointsWriter of the coordinating node.
